@@ -76,7 +76,9 @@ def _root():
 
 # the source is a non-UTF-8 file with a coding comment and non-ASCII text: the module file is written in that
 # encoding and says so in its own first line, so "renders the current source" also covers the bytes of the module
-_HEAD = "## -*- coding: iso-8859-1 -*-\n"
+# (the <%page> tag re-enables the loop context: a no-op by default, the documented per-template switch when the
+# Template is constructed with enable_loop=False - one history configuration does that)
+_HEAD = "## -*- coding: iso-8859-1 -*-\n<%page enable_loop=\"True\"/>"
 
 
 def src_text(v):
@@ -108,6 +110,7 @@ class Env:
         self.pyc = pyc
         self.writer_calls = []
         self.use_writer = writer
+        self.tkw = {}  # further Template keyword arguments of this environment
         env = self
 
         def wrap(name, fn, kind="op"):
@@ -219,6 +222,7 @@ class Env:
             return None
 
     def construct(self, **kw):
+        kw = dict(self.tkw, **kw)
         if self.use_writer:
             kw["module_writer"] = self._writer
         try:
@@ -479,6 +483,7 @@ class HWorld:
     def __init__(self, cfg):
         self.cfg = cfg
         self.env = Env(pyc=cfg["pyc"], writer=cfg["writer"])
+        self.env.tkw = dict(cfg.get("tkw") or {})
         e = self.env
         os.makedirs(e.moddir)
         e.clock.now = 1000.0
@@ -495,14 +500,14 @@ class HWorld:
     def expected_bytes(self, v, clock):
         """what a default writer produces for the current source under this clock (reference run in another module dir)"""
         e = self.env
-        key = (v, clock, e.src)
+        key = (v, clock, e.src, repr(sorted(e.tkw.items())))
         memo = _PROC.setdefault("ref", {})
         if key not in memo:
             d = tempfile.mkdtemp(dir=e.root, prefix="ref")
             try:
                 save = e.log, e.use_writer
                 e.use_writer = False
-                e.Template(filename=e.src, module_directory=d, uri="t.html")
+                e.Template(filename=e.src, module_directory=d, uri="t.html", **e.tkw)
                 e.log, e.use_writer = save
                 memo[key] = open(os.path.join(d, "t.html.py"), "rb").read()
             finally:
@@ -698,10 +703,14 @@ def expand(cfg, hist):
 
 
 def h_configs(tier):
-    cfgs = [{"pyc": False, "writer": False}, {"pyc": False, "writer": True}, {"pyc": True, "writer": False}]
+    cfgs = [{"pyc": False, "writer": False}, {"pyc": False, "writer": True}, {"pyc": True, "writer": False},
+            # a rarely set option whose effective value the source overrides (<%page enable_loop="True"/>)
+            {"pyc": False, "writer": True, "tkw": {"enable_loop": False}}]
     for c in cfgs:
         # byte-code caching multiplies the state space (the cached file is part of the state)
         c["max_depth"] = (5 if c["pyc"] else 7) if tier == "quick" else (7 if c["pyc"] else 10)
+        if c.get("tkw"):
+            c["max_depth"] = 5 if tier == "quick" else 8
     return cfgs
 
 
